@@ -3085,6 +3085,9 @@ func (m *Msg) signMessage() error {
 	buf := bytes.NewBuffer(nil)
 	mw := &msgWriter{writer: buf, charset: m.charset, encoder: m.encoder}
 	mw.writeMsg(m)
+	if mw.err != nil {
+		return fmt.Errorf("failed to render message for signing: %w", mw.err)
+	}
 
 	// Since we only want to sign the message body, we need to find the position within
 	// the mail body from where we start reading.
